@@ -47,10 +47,14 @@ class Result:
         return o
 
     def floor(self, what, measured, minimum):
-        """A rule that matches fewer sites than were confirmed by hand fails closed."""
-        self.floors.append({"what": what, "measured": measured, "floor": minimum})
-        self.ob("floor", what, "instance count for '%s' is at least the %d confirmed by reading"
-                % (what, minimum), measured >= minimum, how="counted %d" % measured,
+        """A rule that matches far fewer sites than were confirmed by hand fails closed. `minimum` is the number
+        counted by reading; the alarm threshold is three quarters of it (rounded up): the floor guards against a
+        rule going vacuous (renamed callee, changed MIR shape), not against the code getting simpler — merging two
+        identical match arms or deleting a redundant assertion legitimately removes instances."""
+        threshold = max(1, -(-minimum * 3 // 4))
+        self.floors.append({"what": what, "measured": measured, "floor": minimum, "alarm_below": threshold})
+        self.ob("floor", what, "instance count for '%s' has not collapsed (confirmed by reading: %d; alarm below %d)"
+                % (what, minimum, threshold), measured >= threshold, how="counted %d" % measured,
                 nontrivial=False)
 
     def anchor_missing(self, rule, name):
